@@ -523,10 +523,6 @@ def start_bulk(run, scratch, in_dir):
     """TLC on ComposedAppSubmit.tla (all orders for small windows; the refuted refill rule; the law
     instantiated for n = 70 and 150), then the REAL parallel path with max_workers = 2 and that many
     tiny inputs - more than any internal batching of the scheduler - for apply_to and as_completed"""
-    model(run, scratch, "MC_ComposedApp_submit.cfg", "submit(n<=5, windows 0-2, all orders)", False, "ComposedAppSubmit", 2)
-    cx = run_tlc("ComposedAppSubmit", "MC_ComposedApp_submit_cx.cfg", scratch, workers=1, must_pass=False)
-    if not (cx.violated and "NoneLost" in cx.out):
-        raise MachineryError("TLC did not refute NoneLost for Extra = 1:\n" + cx.out[-1500:])
     recs = model(run, scratch, "MC_ComposedApp_submit_bulk.cfg", "submit(n=70,150)", True, "ComposedAppSubmit", 2)
     jobs = {}
     jid = 3 * 10**6
@@ -595,10 +591,12 @@ def start_growth_models(run, scratch, tier):
         p.write_text(text)
         return os.path.relpath(p, VERIF / "specs")
 
-    ex = ThreadPoolExecutor(5)
+    ex = ThreadPoolExecutor(7)
     return ex, {
         "MC_ComposedApp_leak.cfg": ex.submit(run_tlc, "ComposedApp", "MC_ComposedApp_leak.cfg", scratch, workers=1, must_pass=False),
         "MC_ComposedApp_retire.cfg": ex.submit(run_tlc, "ComposedApp", "MC_ComposedApp_retire.cfg", scratch, workers=1, must_pass=False),
+        "MC_ComposedApp_submit_cx.cfg": ex.submit(run_tlc, "ComposedAppSubmit", "MC_ComposedApp_submit_cx.cfg", scratch, workers=1, must_pass=False),
+        "submit": ex.submit(model, run, scratch, "MC_ComposedApp_submit.cfg", "submit(n<=5, windows 0-2, all orders)", False, "ComposedAppSubmit", 1),
         "runs-dir": ex.submit(model, run, scratch, cfg_runs("retry", True), "runs-retry(dir)", True, "ComposedAppRuns", 2),
         "runs-sqlite": ex.submit(model, run, scratch, cfg_runs("keep", False), "runs-keep(sqlite)", True, "ComposedAppRuns", 2),
         "links": ex.submit(model, run, scratch, "MC_ComposedApp_links.cfg" if tier == "quick" else "MC_ComposedApp_links_thorough.cfg", "links", True, "ComposedAppLinks", 2),
@@ -784,11 +782,12 @@ def check(run: Run):
                 masters = Masters([j for j, _ in pjobs.values()] + list(fjobs.values()), scratch, "par", NMASTERS)
             # design-level counterexample: one shared copy of the step's arguments breaks ArgPristine
             # and: retiring not-completed records by identifier suffix breaks Accounted
-            for cfg, inv in (("MC_ComposedApp_leak.cfg", "ArgPristine"), ("MC_ComposedApp_retire.cfg", "Accounted")):
+            gfuts["submit"].result()
+            for cfg, inv in (("MC_ComposedApp_leak.cfg", "ArgPristine"), ("MC_ComposedApp_retire.cfg", "Accounted"), ("MC_ComposedApp_submit_cx.cfg", "NoneLost")):
                 cx = gfuts[cfg].result()
                 if not (cx.violated and inv in cx.out):
                     raise MachineryError(f"TLC did not refute {inv} in {cfg}:\n" + cx.out[-1500:])
-            run.note("design_counterexamples", "MC_ComposedApp_leak.cfg (Isolated = FALSE): ArgPristine violated; MC_ComposedApp_retire.cfg (RetireRule = suffix): Accounted violated - as expected")
+            run.note("design_counterexamples", "MC_ComposedApp_leak.cfg (Isolated = FALSE): ArgPristine violated; MC_ComposedApp_retire.cfg (RetireRule = suffix): Accounted violated; MC_ComposedApp_submit_cx.cfg (refill takes one input more than it submits): NoneLost violated - as expected")
 
             run.note("behaviours", {"serial": len(ser), "parallel_order_classes": len(par), "parallel": sum(len(v) for v in par.values()), "tlc_wall_s": round(time.time() - t0, 1)})
 
